@@ -505,6 +505,11 @@ static std::vector<Scenario> scenariosC15(bool thorough, const vp::Args& A) {
           std::vector<int> c = probe.lookup(tels[ti].m);
           int rs = c.empty() ? 1 : (int)ref::wirePart(s.answers[c[0]].answer).size();
           s.foreign.push_back(askScript(tels[ti].m, rs, var));
+          // behind an answered exchange: a broadcast and a telegram for somebody else must be received passively again
+          if (related && var == 0 && sets[si].size() == 1 && (ti % 3) == 1) {
+            s.foreign.push_back(telScript(mk("10fe070400")));
+            if (thorough) s.foreign.push_back(telScript(mk("0315b509020d00", "0277aa")));
+          }
           s.tailSyns = 2;
           s.k = (thorough && related && var == 0) ? 2 : 1;
           s.c = thorough ? 1 : 0;
